@@ -107,7 +107,8 @@ class VGen:
         if c == 8:
             return self.ndarray()
         if c == 9:
-            return ["npscalar", self.r.choice(["<f8", "<i4", "|b1", "<f4", "<c16"]), self.r.choice([0, 1, 3])]
+            # incl. scalar types whose .npy descr coincides with another type's (longlong/ulonglong: '<i8'/'<u8' like int64/uint64)
+            return ["npscalar", self.r.choice(["<f8", "<i4", "|b1", "<f4", "<c16", "q", "Q", "<f2", "g", "<c8", "<u2"]), self.r.choice([0, 1, 3])]
         if c == 10:
             return self.r.choice([["dtype", self.r.choice(DTYPES)], ["structdtype"]])
         if c == 11:
